@@ -26,6 +26,7 @@ import (
 	"github.com/BlackVectorOps/semantic_firewall/v3/internal/verifh/lib/gen"
 	"github.com/BlackVectorOps/semantic_firewall/v3/internal/verifh/lib/nexec"
 	"github.com/BlackVectorOps/semantic_firewall/v3/internal/verifh/lib/pairs"
+	"github.com/BlackVectorOps/semantic_firewall/v3/internal/verifh/lib/xpkg"
 	"github.com/BlackVectorOps/semantic_firewall/v3/pkg/models"
 )
 
@@ -299,7 +300,7 @@ func batch(res *evid.Result, bi int, root string) {
 		}
 		type pending struct {
 			name, key, what string
-			w                map[string]any
+			w               map[string]any
 		}
 		var pend []pending
 		for _, fn := range base.Funcs {
@@ -409,6 +410,50 @@ func main() {
 		}(b)
 	}
 	wg.Wait()
+	// callee / global swaps between packages that share their package name (lib/xpkg)
+	for _, sc := range xpkg.Build(filepath.Join(root, "xpkg"), evid.Rand(404)) {
+		if sc.Err != "" {
+			res.Inconcl(1)
+			res.Logf("C04 xpkg %s: %s\n", sc.Kind, sc.Err)
+			continue
+		}
+		if !sc.Separated {
+			res.Count("pairs_not_separated", 1)
+			continue
+		}
+		res.Eval(1)
+		res.Count("pairs_separated", 1)
+		res.Count("separated:"+sc.Kind, 1)
+		res.Distinct(sc.Kind + "|normal|xpkg")
+		out, ok := diffFiles(res, sc.OldFile, sc.NewFile)
+		if !ok {
+			continue
+		}
+		n, allPreserved, byFP := 0, true, true
+		for _, d := range out.Functions {
+			if !strings.Contains(d.Function, sc.Func) {
+				continue
+			}
+			n++
+			if d.Status != models.StatusPreserved {
+				allPreserved = false
+			}
+			if !d.FingerprintMatch {
+				byFP = false
+			}
+		}
+		w := map[string]any{"scenario": sc, "entries": out.Functions}
+		switch {
+		case n == 0:
+			res.Violate("missing-entry/"+sc.Kind, fmt.Sprintf("%s does not appear in the diff report at all", sc.Func), w)
+		case allPreserved:
+			how := "by-zipper"
+			if byFP {
+				how = "by-fingerprint"
+			}
+			res.Violate("preserved/"+how+"/"+sc.Kind, fmt.Sprintf("app.%s: only the import %q became %q (same package name, same member); the versions behave differently (%s) but the diff reports the function as preserved (%s)", sc.Func, sc.OldImport, sc.NewImport, sc.Witness, how), w)
+		}
+	}
 	if res.GetCount("pairs_separated") < 100 {
 		res.Broken = fmt.Sprintf("only %d pairs were separated by execution", res.GetCount("pairs_separated"))
 	}
